@@ -74,6 +74,10 @@ func localFrame(s string) []byte {
 	switch {
 	case s == "list":
 		return []byte{32}
+	case s == "read:BIG":
+		return append([]byte{33}, bytes.Repeat([]byte("a"), 200<<10)...)
+	case s == "attest:BIG":
+		return append([]byte{34}, bytes.Repeat([]byte("b"), 200<<10)...)
 	case len(s) > 5 && s[:5] == "read:":
 		return append([]byte{33}, s[5:]...)
 	case len(s) > 7 && s[:7] == "attest:":
@@ -172,9 +176,11 @@ func execLocal(c LocalCase) (vh.Outcome, error) {
 }
 
 func TestC12LocalSlots(t *testing.T) {
-	kinds := []string{"list", "read:9a", "read:9e", "read:zz", "attest:9a", "attest:zz", "attest:zz1", "read:9d", "attest:9c", "wait", "unknown", "agentlist"}
+	kinds := []string{"list", "read:9a", "read:9e", "read:zz", "attest:9a", "attest:zz", "attest:zz1", "read:9d", "attest:9c", "wait", "unknown", "agentlist",
+		// slot names the operating system refuses to pass to a program (a NUL byte; an argument of 200 KiB), option look-alikes, non-ASCII
+		"read:9a\x00x", "attest:\x00", "read:BIG", "attest:BIG", "read:-a", "attest:--help", "read:日本"}
 	vh.Run(t, vh.Spec[LocalCase]{Property: "C12", Name: "TestC12LocalSlots",
-		Rule: "the real NewServer in local mode with a stand-in PIV tool (status prints two slots; read / attest print a certificate for slots 9a, 9c, 9e, garbage for 9d and fail with exit 1 for slot names starting with zz): streams of 1..10 slot requests mixed with wait (code >= 40), unknown and list-identities frames, dealt to 1..3 connections of the one server that are served one after another. Oracle: every connection ends without error within 30 s with exactly one response per frame; identical requests get identical responses throughout the history (a response out of step shows); working and failing slots are answered differently. Non-trivial: a slot request after one that made the tool fail.",
+		Rule: "the real NewServer in local mode with a stand-in PIV tool (status prints two slots; read / attest print a certificate for slots 9a, 9c, 9e, garbage for 9d and fail with exit 1 for slot names starting with zz; slot names with a NUL byte or of 200 KiB cannot even be handed to a program by the operating system): streams of 1..10 slot requests mixed with wait (code >= 40), unknown and list-identities frames, dealt to 1..3 connections of the one server that are served one after another. Oracle: every connection ends without error within 30 s with exactly one response per frame; identical requests get identical responses throughout the history (a response out of step shows); working and failing slots are answered differently. Non-trivial: a slot request after one that made the tool fail.",
 		Gen: func(t *rapid.T) LocalCase {
 			n := rapid.IntRange(1, 10).Draw(t, "n")
 			c := LocalCase{Conns: rapid.IntRange(1, 3).Draw(t, "conns")}
